@@ -521,6 +521,10 @@ class ConfigParser(object):
       return False, None
 
     while continue_parsing:
+      # Adjacent string literals are concatenated by `literal_eval`; keep the
+      # tokens apart, since e.g. '' followed by 'a' would otherwise read '''a'.
+      if token_value and self._current_token.type == tokenize.STRING:
+        token_value += ' '
       token_value += self._current_token.string
 
       try:
